@@ -206,6 +206,19 @@ CHECKS = {
         note="Trusted: TLC; CPython's import system as ground truth (exit 2 on disagreement with the spec).",
         design_ref="DESIGN.md sections 3.8, 5 (C18)",
     ),
+    "C19": dict(
+        category="model_checking",
+        technique="TLA+ model of Python scoping (Rename.tla): TLC fills the identifier slots of binding scenarios with every combination from an adversarial pool and computes the partition of occurrences by binding; resolver validated against the spec and CPython's symtable; partition compared before / after the renaming rule; execution as second oracle",
+        text=("Rename.tla: scenarios = scope tree + ordered identifier occurrences with roles (store, param, load, global / nonlocal declaration, attribute, "
+              "keyword); LEGB with class scopes and comprehensions gives the binding of every occurrence. 19 scenarios (assignment, augmented, tuple, for, "
+              "with-as, import-as, def / class names, parameters + keyword uses, global, nonlocal, closures, shadowing locals, class attributes via self / "
+              "class, comprehension targets, unused locals) x all assignments of 9 identifiers (camelCase / snake_case / UPPER / Camel / private variants of "
+              "one another, a builtin, `_`, a generated-looking name). The rendered program's partition (general ast resolver) must equal the spec's and "
+              "agree with symtable; after align_variable_names_with_convention identifier tokens are aligned one to one and the partition must be the "
+              "same (merge = capture, split = missed reference); new identifiers must be usable; (status, stdout) must be unchanged."),
+        note="Trusted: TLC; CPython's symtable and execution as ground truth. Other renaming rules (dedupe, static extraction) are covered through C01/C02's execution oracle only.",
+        design_ref="DESIGN.md sections 3.8, 5 (C19)",
+    ),
     "C20": dict(
         category="model_checking",
         technique="systematic line annotation of rule-firing programs; recorded runs validated by TLC against PipelineTrace.tla (FinalIgnored, SkipIsIdentity); Scheduler.tla scenarios with ignored lines replayed",
